@@ -12,6 +12,7 @@ package main
 
 import (
 	"fmt"
+	"sort"
 	"strconv"
 	"strings"
 	"testing"
@@ -140,8 +141,45 @@ func main() {
 	r.Register("alias", alias)
 	r.Register("wt", writeThrough)
 	r.Register("alloc", allocs)
+	// calls BRANCH -> the set of functions that branch of Session.Parse calls, from the source (calls.go)
+	r.Register("calls", func(a []string) string {
+		m, ok := sourceCalls()
+		if !ok {
+			return "unrecognised"
+		}
+		if a[0] == "branches" {
+			ks := make([]string, 0, len(m))
+			for k := range m {
+				ks = append(ks, k)
+			}
+			sort.Strings(ks)
+			return strings.Join(ks, ",")
+		}
+		if v, ok := m[a[0]]; ok {
+			if v == "" {
+				return "-"
+			}
+			return v
+		}
+		return "no-such-branch"
+	})
 	if r.Replayed() {
 		return
+	}
+	if m, ok := sourceCalls(); ok {
+		r.Do("calls", "branches")
+		ks := make([]string, 0, len(m))
+		for k := range m {
+			ks = append(ks, k)
+		}
+		sort.Strings(ks)
+		for _, k := range ks {
+			r.Do("calls", k)
+		}
+		r.Stat("calls.compared", int64(len(ks)))
+	} else {
+		r.Stat("calls.unrecognised", 1)
+		r.Sample("call lists: AST shape of Session.Parse not recognised; allocation sites checked by measurement only")
 	}
 	pgen.Corpus(r)
 	rng := r.Rand()
